@@ -3,7 +3,8 @@ From Coq Require Import ZArith List.
 Import ListNotations.
 Require Import GV.Model.J1939 GV.Model.Governor GV.Model.Hcu GV.Model.Object GV.Model.HcuUnit
   GV.Spec.C02_spec GV.Spec.C01_spec GV.Proofs.C01_proof
-  GV.Model.Units GV.Model.Authority GV.Model.Auth_io GV.Model.C01a_io GV.Proofs.C01_auth.
+  GV.Model.Units GV.Model.Authority GV.Model.Auth_io GV.Model.C01a_io GV.Proofs.C01_auth
+  GV.Gen.Consts GV.Model.Sched GV.Proofs.Sched_proof.
 Local Open Scope Z_scope.
 
 Theorem C01 : forall c, c01_wf c = true -> c01_spec_ok c (c01_model c) = true.
@@ -45,3 +46,28 @@ Check C01_authority_reasserts : forall addr nm cs evs,
   forall it now, In it (a_items a) -> i_kind it = KHcu ->
     item_tick_frames it now = encode_motion (u_da (i_cfg it)) (u_sa (i_cfg it)) (last_accepted StopAll evs).
 Print Assumptions C01_authority_reasserts.
+
+(* ---- every interleaving: the three tasks as programs of atomic context accesses (Model/Sched.v).
+   For EVERY list of micro-events — cycle reads the register / cycle puts its frames on the bus /
+   command task stores a command / command task puts its frames on the bus / receive task handles
+   a frame, in any order, with disabled steps as no-ops — what reaches the bus is what the
+   register-free specification says: each cycle sends the encoding of the latest motion command
+   accepted BEFORE ITS READ (stop-all when none), each command sends its own encoding ---- *)
+Theorem C01_all_schedules : forall u evs, hrun u hstate0 evs = grun u hghost0 evs.
+Proof. exact hsched. Qed.
+Check C01_all_schedules : forall u evs, hrun u hstate0 evs = grun u hghost0 evs.
+Print Assumptions C01_all_schedules.
+(* handler-granular histories (what C01 above and the correspondence run) are the schedules whose
+   steps are adjacent: same frames in the same order *)
+Theorem C01_sequential_is_a_schedule : forall u evs c,
+  concat (hrun u {| h_ctx := c; h_tick := None; h_cmd := None |} (flat_map hseq evs)) = concat (c01_run u c evs).
+Proof. exact hsched_sequential. Qed.
+Print Assumptions C01_sequential_is_a_schedule.
+(* the programs consist of the accesses the source makes (re-extracted on every run) *)
+Theorem C01_access_shapes :
+  shape_hcu_tick = [ACC_TX_LAST] /\ shape_hcu_trigger = [ACC_SET_TX] /\ rx_side_only shape_hcu_try_recv = true
+  /\ shape_volvo_tick = [ACC_RX_LAST; ACC_TX_LAST] /\ shape_volvo_trigger = [ACC_RX_LAST; ACC_SET_TX]
+  /\ shape_volvo_try_recv = [] /\ rx_side_only shape_ems_try_recv = true
+  /\ shape_authority_recv = [ACC_RX_MARK] /\ shape_authority_on_tick = [6; 7] /\ shape_authority_on_command = [].
+Proof. exact shapes_match. Qed.
+Print Assumptions C01_access_shapes.
